@@ -303,3 +303,28 @@ OTHER_FAILURES = {
         address.IPv4Address("TCP", "127.0.0.1", 1)),
     "dnslookup": lambda tag: error.DNSLookupError("dns " + tag),
 }
+
+
+def selftest():
+    """the reference SocksPort-line reader against the forms of tor(1)"""
+    good = {
+        "9050": ("tcp", "127.0.0.1", 9050),
+        "127.0.0.1:9050 IsolateDestAddr": ("tcp", "127.0.0.1", 9050),
+        "[::1]:9050": ("tcp6", "::1", 9050),
+        "unix:/run/tor/socks WorldWritable": ("unix", "/run/tor/socks"),
+        'unix:"/a b/c" GroupWritable NoIPv6Traffic SessionGroup=4': ("unix", "/a b/c"),
+        "auto": ("auto",),
+        "0": ("tcp", "127.0.0.1", 0),
+    }
+    for line, want in good.items():
+        assert valid_line(line), line
+        assert parse_first(split_line(line)[0]) == want, line
+    for bad in ("DEFAULT", "9050 Bogus", "['9050', '9051']", "70000", 'unix:"/a b', "1.2.3:80", "unix:"):
+        assert not valid_line(bad), bad
+    st = SocksStore(["9050 IsolateDestAddr"])
+    assert st.apply([("SOCKSPort", "DEFAULT"), ("SOCKSPort", "1")]) is not None and st.get("SocksPort") == ["9050 IsolateDestAddr"]
+    assert st.apply([("SOCKSPort", "9050"), ("socksport", "unix:/x")]) is None and st.get("SocksPort") == ["9050", "unix:/x"]
+    st2 = SocksStore(None, ["9050"])
+    assert st2.socks_entries() == ["9050"]
+    assert st2.apply([("SocksPort", "9051")]) is None and st2.socks_entries() == ["9051"]
+    return len(good) + 7 + 4
